@@ -8,6 +8,8 @@
 //	          implementation-only oracles on the property's domain (NaN-free, |float| < 2^53):
 //	          reflexivity, Compare(b,a) = -Compare(a,b), transitivity over ALL ordered triples
 //	          (computed from the pair matrix), operators = projections of Compare.
+//	c11case   replay: re-runs the implementation on the inputs of recorded case lines (args) and emits
+//	          the lines with the results observed now.
 //	c11nat    sort, sort_by, group_by, unique, unique_by, min, max, min_by, max_by, bsearch, array -,
 //	          indices/index/rindex on arrays, keys, [.[]], tojson / Marshal key order.
 package main
@@ -17,6 +19,7 @@ import (
 	"fmt"
 	"math"
 	"math/big"
+	"strconv"
 	"strings"
 	. "verifharness/hlib"
 
@@ -26,6 +29,7 @@ import (
 func main() {
 	Register("c11pairs", runPairs)
 	Register("c11nat", runNatives)
+	Register("c11case", runCase)
 	Main()
 }
 
@@ -587,5 +591,226 @@ func runNatives(c *Ctx) {
 			c.Violation("(marshal %s) error %v", SexpVal(po), err)
 		}
 		c.Count("jsonkeys")
+	}
+}
+
+// ---------------------------------------------------------------------------------------------
+// replay of recorded case lines
+
+type sx struct {
+	atom string
+	list []*sx
+	isl  bool
+}
+
+func parseSx(s string) (*sx, error) {
+	var stack [][]*sx
+	cur := []*sx{}
+	i := 0
+	for i < len(s) {
+		switch ch := s[i]; {
+		case ch == ' ' || ch == '\t':
+			i++
+		case ch == '(':
+			stack = append(stack, cur)
+			cur = []*sx{}
+			i++
+		case ch == ')':
+			if len(stack) == 0 {
+				return nil, fmt.Errorf("unbalanced")
+			}
+			l := &sx{list: cur, isl: true}
+			cur = append(stack[len(stack)-1], l)
+			stack = stack[:len(stack)-1]
+			i++
+		default:
+			j := i
+			for j < len(s) && s[j] != ' ' && s[j] != '(' && s[j] != ')' {
+				j++
+			}
+			cur = append(cur, &sx{atom: s[i:j]})
+			i = j
+		}
+	}
+	if len(stack) != 0 || len(cur) != 1 {
+		return nil, fmt.Errorf("not one expression")
+	}
+	return cur[0], nil
+}
+
+func unhex(s string) ([]byte, error) {
+	if s == "-" {
+		return nil, nil
+	}
+	b := make([]byte, len(s)/2)
+	for i := range b {
+		v, err := strconv.ParseUint(s[2*i:2*i+2], 16, 8)
+		if err != nil {
+			return nil, err
+		}
+		b[i] = byte(v)
+	}
+	return b, nil
+}
+
+func valueOf(e *sx) (any, error) {
+	if !e.isl {
+		switch e.atom {
+		case "null":
+			return nil, nil
+		case "true":
+			return true, nil
+		case "false":
+			return false, nil
+		}
+		return nil, fmt.Errorf("bad atom %q", e.atom)
+	}
+	if len(e.list) == 0 || e.list[0].isl {
+		return nil, fmt.Errorf("bad list")
+	}
+	switch tag := e.list[0].atom; tag {
+	case "a":
+		xs := make([]any, 0, len(e.list)-1)
+		for _, x := range e.list[1:] {
+			v, err := valueOf(x)
+			if err != nil {
+				return nil, err
+			}
+			xs = append(xs, v)
+		}
+		return xs, nil
+	case "o":
+		m := map[string]any{}
+		for _, kv := range e.list[1:] {
+			if !kv.isl || len(kv.list) != 2 || kv.list[0].isl {
+				return nil, fmt.Errorf("bad object entry")
+			}
+			k, err := unhex(kv.list[0].atom)
+			if err != nil {
+				return nil, err
+			}
+			v, err := valueOf(kv.list[1])
+			if err != nil {
+				return nil, err
+			}
+			m[string(k)] = v
+		}
+		return m, nil
+	case "i", "b", "f", "l", "s":
+		if len(e.list) != 2 || e.list[1].isl {
+			return nil, fmt.Errorf("bad scalar")
+		}
+		t := e.list[1].atom
+		switch tag {
+		case "i":
+			i, err := strconv.ParseInt(t, 10, 64)
+			return int(i), err
+		case "b":
+			x, ok := new(big.Int).SetString(t, 10)
+			if !ok {
+				return nil, fmt.Errorf("bad big")
+			}
+			return x, nil
+		case "f":
+			u, err := strconv.ParseUint(t, 10, 64)
+			return math.Float64frombits(u), err
+		case "l":
+			b, err := unhex(t)
+			return json.Number(string(b)), err
+		default:
+			b, err := unhex(t)
+			return string(b), err
+		}
+	}
+	return nil, fmt.Errorf("unknown tag")
+}
+
+var caseQueries = map[string]string{"sort": "sort", "unique": "unique", "min": "min", "max": "max", "keys": "keys", "iter": "[.[]]",
+	"sort_by": "sort_by(.[1])", "group_by": "group_by(.[1])", "unique_by": "unique_by(.[1])", "min_by": "min_by(.[1])", "max_by": "max_by(.[1])",
+	"bsearch": "bsearch($t)", "sub": ". - $t", "indices": "indices($t)", "index": "index($t)", "rindex": "rindex($t)"}
+
+func runCase(c *Ctx) {
+	for _, line := range c.Args {
+		e, err := parseSx(line)
+		if err != nil || !e.isl || len(e.list) < 2 || e.list[0].isl {
+			c.Emit("(unparsable-case)")
+			continue
+		}
+		kind := e.list[0].atom
+		var vals []any
+		bad := false
+		nin := map[string]int{"cmp": 2, "refl": 1, "antisym": 2, "trans": 3, "jsonkeys": 1, "bsearch": 2, "sub": 2, "indices": 2, "index": 2, "rindex": 2}[kind]
+		if nin == 0 {
+			nin = 1
+		}
+		if len(e.list) < 1+nin {
+			c.Emit("(unparsable-case)")
+			continue
+		}
+		for _, x := range e.list[1 : 1+nin] {
+			v, err := valueOf(x)
+			if err != nil {
+				bad = true
+			}
+			vals = append(vals, v)
+		}
+		if bad {
+			c.Emit("(unparsable-case)")
+			continue
+		}
+		sxs := make([]string, len(vals))
+		for i, v := range vals {
+			sxs[i] = SexpVal(v)
+		}
+		switch kind {
+		case "cmp":
+			ops := compile("[$a == $b, $a != $b, $a < $b, $a <= $b, $a > $b, $a >= $b]", "$a", "$b")
+			r := gojq.Compare(vals[0], vals[1])
+			bs, _ := run1(ops, nil, vals[0], vals[1]).([]any)
+			if len(bs) != 6 {
+				c.Emit("(cmp %s %s %d)", sxs[0], sxs[1], r)
+				continue
+			}
+			c.Emit("(cmp %s %s %d %s %s %s %s %s %s)", sxs[0], sxs[1], r, boolAtom(bs[0]), boolAtom(bs[1]), boolAtom(bs[2]), boolAtom(bs[3]), boolAtom(bs[4]), boolAtom(bs[5]))
+			want := []bool{r == 0, r != 0, r < 0, r <= 0, r > 0, r >= 0}
+			for k := range want {
+				if b, ok := bs[k].(bool); !ok || b != want[k] {
+					c.Violation("%s", line)
+					break
+				}
+			}
+		case "refl":
+			if r := sign(gojq.Compare(vals[0], vals[0])); r != 0 {
+				c.Violation("(refl %s %d)", sxs[0], r)
+			}
+		case "antisym":
+			ab, ba := sign(gojq.Compare(vals[0], vals[1])), sign(gojq.Compare(vals[1], vals[0]))
+			if ba != -ab {
+				c.Violation("(antisym %s %s %d %d)", sxs[0], sxs[1], ab, ba)
+			}
+		case "trans":
+			ab, bc, ac := sign(gojq.Compare(vals[0], vals[1])), sign(gojq.Compare(vals[1], vals[2])), sign(gojq.Compare(vals[0], vals[2]))
+			if ab <= 0 && bc <= 0 && (ac > 0 || ((ab < 0 || bc < 0) && ac >= 0)) {
+				c.Violation("(trans %s %s %s %d %d %d)", sxs[0], sxs[1], sxs[2], ab, bc, ac)
+			}
+		case "jsonkeys":
+			if s, ok := run1(compile("tojson"), vals[0]).(string); ok {
+				c.Emit("(jsonkeys %s %s)", sxs[0], orderedOf(s))
+			}
+			if bs, err := gojq.Marshal(vals[0]); err == nil {
+				c.Emit("(jsonkeys %s %s)", sxs[0], orderedOf(string(bs)))
+			}
+		default:
+			q, ok := caseQueries[kind]
+			if !ok {
+				c.Emit("(unparsable-case)")
+				continue
+			}
+			if nin == 1 {
+				c.Emit("(%s %s %s)", kind, sxs[0], SexpVal(run1(compile(q), vals[0])))
+			} else {
+				c.Emit("(%s %s %s %s)", kind, sxs[0], sxs[1], SexpVal(run1(compile(q, "$t"), vals[0], vals[1])))
+			}
+		}
 	}
 }
